@@ -1,6 +1,6 @@
 CONSTANTS
   D4 = {32, 33, 34, 36, 37, 65534}
-  G4 = {0, 1, 2, 3}
+  G4 = {0, 1, 2, 65534}
   G2 = {0, 1, 2}
   DL2 <- DL2Full
   Cases <- MCCases
